@@ -29,7 +29,9 @@
     issued together ([OAddNoc] = CSRRequest, AddTrustedRootCertificate, AddNOC;
     [OUpdNoc] = CSRRequest(update), UpdateNOC); breadcrumb, networks, commissioning
     window and store failures are C08's subject and left out; a handshake, a
-    resumption, a subscribe transaction and a request are single steps; the key-value
+    resumption, a subscribe transaction and a request are single steps, except that a
+    handshake can also be caught in its last step ([OEstablishBegin] / [OResumeBegin] ...
+    [OFinishFull] / [OFinishResume]) with its reserved slot in the table in between; the key-value
     copy of the subscription table is rewritten in the same step as every change
     of the table and is therefore not a separate component; the order of the
     fabric table is not observable (indices are unique). *)
@@ -142,7 +144,14 @@ Inductive op :=
 | OReport                      (* the reporter runs (purge phase) *)
 | ORequest (s : N) (k : N)     (* write ACL := [admin; k] on session s *)
 | OSubscribe (s : N)
-| ONewPase.
+| ONewPase
+(* a handshake caught in its last step: the reserved slot already carries its final mode
+   [Case { fab_idx }], the handler waits for the peer's last message *)
+| OEstablishBegin (r : N)      (* full CASE up to and including Sigma3: slot updated, record inserted;
+                                  the acknowledgement of the final status report is outstanding *)
+| OResumeBegin (k : N)         (* resumption up to Sigma2_Resume: slot updated; SigmaFinished outstanding *)
+| OFinishFull (s : N)          (* the acknowledgement arrives: the handler releases slot s *)
+| OFinishResume (s : N).       (* SigmaFinished arrives: slot s released, the record rotated *)
 
 Inductive status :=
 | StOk | StGone | StAccess | StFsReq | StBusy | StFail | StConstraint | StMissingCsr
@@ -418,6 +427,19 @@ Definition new_record (st : state) (fab node inc : N) : state :=
           (st_kvrecs st) (st_subs st) (st_fs st) (st_root st)
           (st_ninc st) (st_nsid st) (st_nrid st + 1) (st_nsub st).
 
+(** a slot reserved by a handshake, already switched to its final mode *)
+Definition new_reserved (st : state) (fab node inc : N) : state :=
+  mkState (st_fabs st) (st_kvfabs st)
+          (st_sess st ++ [mkSess (st_nsid st) MCase fab node false true inc])
+          (st_recs st) (st_kvrecs st) (st_subs st) (st_fs st) (st_root st)
+          (st_ninc st) (st_nsid st + 1) (st_nrid st) (st_nsub st).
+
+(** [ReservedSession::drop] of a completed handshake: the slot, if it is still there, goes live *)
+Definition release (sid : N) (l : list session) : list session :=
+  map (fun s => if s_id s =? sid
+                then mkSess (s_id s) (s_mode s) (s_fab s) (s_node s) (s_exp s) false (s_inc s)
+                else s) l.
+
 Definition table_full (st : state) : bool := Nat.leb MAX_SESSIONS (length (st_sess st)).
 
 (** Sigma3 accepted on fabric [f] for peer [node]: the session and the resumption record *)
@@ -582,6 +604,41 @@ Definition step_fx (fx : fixes) (st : state) (o : op) : state * status :=
   | ONewPase =>
     if table_full st then (st, StNoSpace)
     else (new_session st MPase 0 ADMIN 0, StOk)
+  | OEstablishBegin r =>
+    match find (fun f => f_root f =? r) (st_fabs st) with
+    | None => (st, StNoFabric)
+    | Some f =>
+      if table_full st then (st, StNoSpace)
+      else (new_record (new_reserved st (f_idx f) ADMIN (f_inc f)) (f_idx f) ADMIN (f_inc f), StOk)
+    end
+  | OResumeBegin k =>
+    match rget k (st_recs st) with
+    | None => (st, StNoRecord)
+    | Some r =>
+      match fget (r_fab r) (st_fabs st) with
+      | None => (st, StNoFabric)
+      | Some _ =>
+        if table_full st then (st, StNoSpace)
+        else (new_reserved st (r_fab r) (r_node r) (r_inc r), StOk)
+      end
+    end
+  | OFinishFull sid =>
+    (* the slot is gone if its fabric was removed meanwhile ([remove_for_fabric] does not
+       spare reserved slots): nothing is left to release *)
+    match sget sid (st_sess st) with
+    | None => (st, StGone)
+    | Some s =>
+      if s_res s then (set_sess st (release sid (st_sess st)), StOk) else (st, StFail)
+    end
+  | OFinishResume sid =>
+    (* repaired: the rotated record is inserted only if the slot is still in the table *)
+    match sget sid (st_sess st) with
+    | None => (st, StGone)
+    | Some s =>
+      if s_res s
+      then (new_record (set_sess st (release sid (st_sess st))) (s_fab s) (s_node s) (s_inc s), StOk)
+      else (st, StFail)
+    end
   end.
 
 Definition step := step_fx repaired.
